@@ -238,12 +238,12 @@ FLOORS = {
     "C08": ["fires_checked", "converse_fire_obligations", "plan_steps_with_fires"],
     "C09": ["outcomes/planFailed", "outcomes/planSucceeded", "converse_planFailed_obligations_met"],
     "C10": ["plan_appends_at_capacity", "plan_iterator_removes", "plan_leak_probes", "plan_clears", "plan_first_last_checked"],
-    "C11": ["replay_steps", "replica_comparisons"],
-    "C12": ["save_load_roundtrips"],
+    "C11": ["replay_steps", "replica_comparisons", "payload_arguments_aliasing_own_history"],
+    "C12": ["save_load_roundtrips", "loads_into_inactive_snapshots"],
     "C15": ["c15_deliveries_checked/" + m for m in METHODS12],
     "C16": ["c16_deliveries_matched_to_records", "c16_action_records_matched", "log_records/method", "log_records/transition",
             "log_records/taskStatus", "log_records/cancelledPending"],
-    "C17": ["copies", "copy_lockstep_operations", "copy_state_data_comparisons"],
+    "C17": ["copies", "copy_lockstep_operations", "copy_state_data_comparisons", "snapshots_taken_during_construction"],
 }
 
 
@@ -277,6 +277,7 @@ RULES = {
     "C10": "non-trivial = the plan was edited (append at capacity, iterator remove, clear)",
     "C11": "non-trivial = a replica was driven by replayEnter/replayTransition",
     "C12": "non-trivial = a save()d buffer was load()ed into another instance",
+    "C14": "non-trivial = at least one transition was applied after activation (the behavioural part: callbacks of states that were not addressed)",
     "C15": "non-trivial = a delivery to a state with injections was observed",
     "C16": "non-trivial = logger records were received",
     "C17": "non-trivial = a copy was taken and driven in lock-step with the original",
